@@ -33,3 +33,15 @@ mk("b-c09-output-extra-ref", {"C09": "silent"}, [(B + "evaluators.rs",
    "        let output_id = output_node.get_id() as usize;\n", "        to_consume_option[output_node.get_id() as usize] += 1;\n"),
    (B + "evaluators.rs", "                if to_consume_option[dep_id] == 0 && dep_id != output_id {", "                if to_consume_option[dep_id] == 0 {")],
    "benign twin of C09-2: the output node gets one extra reference (+= 1), so its counter never reaches zero", kind="benign")
+mk("m-c17-mux-bit-swapped", {"C17": ["C17.M|Mux|bit operands"]}, [(B + "ops/multiplexer.rs",
+   "            i_choice0\n                .add(i_flag.multiply(i_choice0.add(i_choice1)?)?)?",
+   "            i_choice1\n                .clone()\n                .add(i_flag.multiply(i_choice0.add(i_choice1)?)?)?")],
+   "bit branch starts from the wrong operand: selector 1 now yields the third operand")
+mk("m-c17-mux-not-flag", {"C17": ["C17.M|Mux|arithmetic operands"]}, [(B + "ops/multiplexer.rs",
+   "            let i_choice0 = i_choice0.mixed_multiply(i_flag.add(g.ones(scalar_type(BIT))?)?)?;",
+   "            let i_choice0 = i_choice0.mixed_multiply(i_flag.add(g.zeros(scalar_type(BIT))?)?)?;")],
+   "the negated selector is computed with zeros instead of ones: output = arg1 + arg2 where the selector is 1")
+mk("b-c17-mux-rewrite", {"C17": "silent"}, [(B + "ops/multiplexer.rs",
+   "            let i_choice1 = i_choice1.mixed_multiply(i_flag.clone())?;\n            let i_choice0 = i_choice0.mixed_multiply(i_flag.add(g.ones(scalar_type(BIT))?)?)?;\n            i_choice0.add(i_choice1)?.set_as_output()?;",
+   "            let diff = i_choice1.subtract(i_choice0.clone())?;\n            i_choice0\n                .add(diff.mixed_multiply(i_flag)?)?\n                .set_as_output()?;")],
+   "benign: arithmetic branch rewritten as arg2 + selector*(arg1 - arg2) (one product instead of two)", kind="benign")
